@@ -3,6 +3,7 @@ CONSTANTS
   ReaderCap = 2
   WriterCap = 2
   MaxWire = 4
+  MaxResp = 4
   Defects = {}
 INVARIANT TypeOK
 PROPERTIES C10_Returns C17_Exit NoLoopLeft
